@@ -2,6 +2,7 @@
   C08  First matching chain judges; every filter in it must allow; unmatched is denied.
 -/
 import AuthProofs.Chain
+import AuthProofs.CodeEquiv
 namespace AuthProps.C08
 open AuthModel AuthModel.Str
 
@@ -75,6 +76,17 @@ example : check true false [adminChain, openChain] [(B "x-tenant", B "other")] =
     some { code := cOK } := by decide
 example : check true false [adminChain] [] = some noChainResp := by decide
 
+/-- `matches` AS TRANSLATED FROM THE GO SOURCE on this run never panics (the only field selection through the
+    pointer happens after the nil test) and is the criterion of the model: nil criterion matches everything,
+    otherwise equality with - or, when no equality is configured, prefix of - the header looked up under the
+    lower-cased configured name. -/
+theorem code_matches_spec (env : Go.Env) (m : Pb.Match) (req : Pb.CheckRequest) :
+    Code.matches_ env m req = .ok (chainMatches (matchOf m) (httpOf req).GetHeaders) :=
+  code_matches env m req
+
+example : Code.matches_ {} { Header := B "X-Tenant", Criteria := .Equality (B "a") }
+    { Attributes := { Request := { Http := { Headers := [(B "x-tenant", B "a")] } } } } = .ok true := by decide
+
 end AuthProps.C08
 
 #print axioms AuthProps.C08.check_eq_judge
@@ -87,3 +99,4 @@ end AuthProps.C08
 #print axioms AuthProps.C08.handler_error_no_verdict
 #print axioms AuthProps.C08.default_deny
 #print axioms AuthProps.C08.untriggered_allowed
+#print axioms AuthProps.C08.code_matches_spec
